@@ -177,7 +177,7 @@ fn step_inner(h: &[u8]) -> StepOut {
     // canonical state
     let (off, buf) = w.verif_state();
     let mut f = Fnv::default();
-    let devbytes = Dev::bytes(&view);
+    let devbytes = view.snapshot();
     f.bytes(&devbytes);
     f.u64(devbytes.len() as u64);
     f.u64(w.verif_device().pos());
@@ -193,7 +193,7 @@ fn step_inner(h: &[u8]) -> StepOut {
                 viol = Some(("C11/flush-failed".into(), format!("flush returned Err({e}); history: {}", history_name(h))));
             }
         }
-        let img = Dev::bytes(&view);
+        let img = view.snapshot();
         if let Some(d) = check_image(&img, &r) {
             if viol.is_none() {
                 viol = Some((format!("C11/{}", d.split(':').next().unwrap_or("image")), format!("after flush: {d}; history: {}", history_name(h))));
@@ -203,7 +203,7 @@ fn step_inner(h: &[u8]) -> StepOut {
     } else {
         drop(w);
     }
-    let img = Dev::bytes(&view);
+    let img = view.snapshot();
     if let Some(d) = check_image(&img, &r) {
         if viol.is_none() {
             viol = Some((format!("C11/{}", d.split(':').next().unwrap_or("image")), format!("after drop: {d}; history: {}", history_name(h))));
